@@ -63,7 +63,7 @@ class SymArr:
             c.index_terms_add(i)
         it = i if not isinstance(i, int) else z3.IntVal(i)
         memo = self.__dict__.setdefault("_memo", {})
-        h = (it.hash(), id(self._elem))
+        h = (tid(it), id(self._elem))
         if h not in memo:
             memo[h] = self._elem(it)
         return memo[h]
@@ -193,7 +193,7 @@ def _index_terms_add(self, t):
         self.index_terms = {}
     if isinstance(t, int):
         return
-    self.index_terms[t.hash()] = t
+    self.index_terms[tid(t)] = t
 
 
 Ctx.index_terms_add = _index_terms_add
@@ -271,7 +271,7 @@ class GhostFold:
             if k == 0:
                 return int(self.ident) if self.intkind else XR(self.ident, npk=True)
             k = z3.IntVal(k)
-        h = k.hash()
+        h = tid(k)
         if h not in self.seen:
             self.seen[h] = k
             c = ctx()
@@ -381,6 +381,7 @@ def arr_extreme(arr, which):
                        band(bimp(e.nan, M.nan), bimp(bnot(M.nan), xcmp(op, M, e)))))
 
     c.universals.append((True, None, n, inst))
+    c.trace.append(("extreme", which, M, w, wn, arr))
     M_ = M
     M_agg[id(M_)] = inst
     return M_
@@ -404,7 +405,7 @@ def instantiate_universals(c, extra_terms=()):
     done = getattr(c, "_univ_done", set())
     for u in list(c.universals):
         for t in terms:
-            key = (id(u), t.hash() if not isinstance(t, int) else t)
+            key = (id(u), tid(t) if not isinstance(t, int) else t)
             if key in done:
                 continue
             done.add(key)
